@@ -1193,6 +1193,9 @@ func main() {
 	sum.Extra["negative_variants"] = negVariants
 	sum.Extra["negative_changed"] = negChanged
 
+	// ------------------------------------------------------------------ stream P
+	runPairs(root, sum)
+
 	// ------------------------------------------------------------------ stream E
 	cases, err := os.Create(filepath.Join(*out, "cases.txt"))
 	hx.Must(err)
@@ -1358,6 +1361,9 @@ func stripPos(s string) string {
 func doReplay(root, path string) int {
 	b, err := os.ReadFile(path)
 	hx.Must(err)
+	if ok, rc := replayPair(root, b); ok {
+		return rc
+	}
 	var f struct {
 		Files   map[string]string `json:"files"`
 		Changes []change          `json:"changes"`
